@@ -283,7 +283,7 @@ func (r *run) boundary(kind, point string) {
 		}
 	}
 	n++ // this call
-	hit := r.plan.Kind == kind && r.plan.N == n
+	hit := (r.plan.Kind == kind || r.plan.Kind == "unlockerr" && kind == "unlock") && r.plan.N == n
 	rq.Ops = append(rq.Ops, opRec{Kind: kind, Err: hit})
 	if kind == "get" {
 		rq.gets++
@@ -314,8 +314,10 @@ func newRun(sc *scenario, plan faultPlan, s *sched.Sched) *run {
 		r.vs.AfterOp = func(op vstore.Op) {
 			rq := r.reqs[r.curReq()]
 			if n := len(rq.Ops); n > 0 && rq.Ops[n-1].Kind == op.Kind {
+				if rq.Ops[n-1].Err != op.Err {
+					panic("harness: fault attribution out of step with vstore's call counter")
+				}
 				rq.Ops[n-1].Found = op.Found
-				rq.Ops[n-1].Err = op.Err
 			}
 		}
 		if plan.Kind == "get" || plan.Kind == "set" {
@@ -437,6 +439,7 @@ type probeLock struct {
 	r      *run
 	inner  idempotency.Locker
 	holder map[string]int
+	unlocks int
 }
 
 func (p *probeLock) Lock(key string) error {
@@ -459,5 +462,10 @@ func (p *probeLock) Lock(key string) error {
 
 func (p *probeLock) Unlock(key string) error {
 	delete(p.holder, key)
-	return p.inner.Unlock(key)
+	err := p.inner.Unlock(key)
+	p.unlocks++
+	if p.r.plan.Kind == "unlockerr" && p.r.plan.N == p.unlocks {
+		return vstore.ErrInjected // released, but the caller is told it failed
+	}
+	return err
 }
